@@ -31,10 +31,24 @@
 
 /* ------------------------------------------------------------ invariant ---- */
 
-/* actual capacity of the data area of a line record (CBMC: from the object size) */
+/*
+ * Capacity of the data area of a line record.  Heap objects are registered with their
+ * REQUESTED size in the ghost table vf_ini_req[] (indexed by CBMC's object number) by the
+ * harness builder below and by the allocator stubs (stubs/ini.h); the invariant bounds
+ * data_size and data_allocated_size by that requested capacity.
+ */
+#define VF_INI_FLDCAP		(2 * VF_INI_FLD + 2)			/* longest line data */
+#define VF_INI_CAP		(VF_INI_FLDCAP + INI_LINE_ALLOC_PADDING)	/* + padding */
+#define VF_INI_RECSZ		(sizeof(ini_line_t) + VF_INI_CAP)	/* constant record size */
 #ifndef VF_REPLAY
-#define VF_INI_LINE_CAP(l)	(__CPROVER_OBJECT_SIZE(l) - sizeof(ini_line_t))
+size_t	vf_ini_req[256];
+#define VF_INI_REQ(p)		vf_ini_req[__CPROVER_POINTER_OBJECT(p) & 255]
+#define VF_INI_LINE_CAP(l)	(VF_INI_REQ(l) - sizeof(ini_line_t))
 #endif
+
+/* the data area of a record starts right behind its header (part of the invariant); the
+ * spec functions address it this way instead of going through the l->data pointer */
+#define VF_INI_DATA(l)	((const uint8_t *)((l) + 1))
 
 static inline int
 vf_ini_line_wf(const ini_line_t *l) {
@@ -44,7 +58,7 @@ vf_ini_line_wf(const ini_line_t *l) {
 	if (!__CPROVER_r_ok(l, sizeof(ini_line_t)))
 		return (0);
 	if (__CPROVER_POINTER_OFFSET(l) != 0 ||
-	    __CPROVER_OBJECT_SIZE(l) < sizeof(ini_line_t))
+	    VF_INI_REQ(l) < sizeof(ini_line_t) || VF_INI_REQ(l) > __CPROVER_OBJECT_SIZE(l))
 		return (0);
 	if (l->data_size > VF_INI_LINE_CAP(l) ||
 	    l->data_allocated_size > VF_INI_LINE_CAP(l))
@@ -59,15 +73,15 @@ vf_ini_line_wf(const ini_line_t *l) {
 	case INI_LINE_TYPE_COMMENT:
 		return (1);
 	case INI_LINE_TYPE_SECTION: /* '[' name ']' rest */
-		return (l->name == l->data + 1 &&
+		return (l->name == VF_INI_DATA(l) + 1 &&
 		    l->name_size <= l->data_size && 2 <= l->data_size - l->name_size &&
-		    l->data[0] == '[' && l->data[1 + l->name_size] == ']');
+		    VF_INI_DATA(l)[0] == '[' && VF_INI_DATA(l)[1 + l->name_size] == ']');
 	case INI_LINE_TYPE_VALUE: /* name '=' val */
-		return (l->name == l->data &&
+		return (l->name == VF_INI_DATA(l) &&
 		    l->name_size < l->data_size &&
 		    l->val_size == l->data_size - l->name_size - 1 &&
-		    l->val == l->data + l->name_size + 1 &&
-		    l->data[l->name_size] == '=');
+		    l->val == VF_INI_DATA(l) + l->name_size + 1 &&
+		    VF_INI_DATA(l)[l->name_size] == '=');
 	}
 	return (0);
 }
@@ -336,7 +350,7 @@ vf_ini_ghost_setup(const ini_t *ini, size_t k, size_t j) {
 	if (k < ini->lines_count && ini->lines[k] != NULL &&
 	    j < ini->lines[k]->data_size + 2) {
 		vf_ini_gchk = 1;
-		vf_ini_gbyte = (j < ini->lines[k]->data_size) ? ini->lines[k]->data[j] :
+		vf_ini_gbyte = (j < ini->lines[k]->data_size) ? VF_INI_DATA(ini->lines[k])[j] :
 		    ((j == ini->lines[k]->data_size) ? 0x0d : 0x0a);
 	}
 }
@@ -438,15 +452,15 @@ vf_ini_text_class(const uint8_t *d, size_t n, size_t *name_off, size_t *name_n,
 static inline int
 vf_ini_line_canonical(const ini_line_t *l) {
 	size_t no, nn, vo, vn;
-	uint32_t t = vf_ini_text_class(l->data, l->data_size, &no, &nn, &vo, &vn);
+	uint32_t t = vf_ini_text_class(VF_INI_DATA(l), l->data_size, &no, &nn, &vo, &vn);
 
 	if (t != l->type)
 		return (0);
 	if (t == INI_LINE_TYPE_SECTION)
-		return (l->name == l->data + no && l->name_size == nn);
+		return (l->name == VF_INI_DATA(l) + no && l->name_size == nn);
 	if (t == INI_LINE_TYPE_VALUE)
-		return (l->name == l->data + no && l->name_size == nn &&
-		    l->val == l->data + vo && l->val_size == vn);
+		return (l->name == VF_INI_DATA(l) + no && l->name_size == nn &&
+		    l->val == VF_INI_DATA(l) + vo && l->val_size == vn);
 	return (1);
 }
 
@@ -458,16 +472,16 @@ vf_ini_line_equiv(const ini_line_t *a, const ini_line_t *b) {
 	if (a->type != b->type || a->data_size != b->data_size)
 		return (0);
 	for (i = 0; i < a->data_size; i ++) {
-		if (a->data[i] != b->data[i])
+		if (VF_INI_DATA(a)[i] != VF_INI_DATA(b)[i])
 			return (0);
 	}
 	if (a->type == INI_LINE_TYPE_SECTION || a->type == INI_LINE_TYPE_VALUE) {
 		if (a->name_size != b->name_size ||
-		    (a->name - a->data) != (b->name - b->data))
+		    (a->name - VF_INI_DATA(a)) != (b->name - VF_INI_DATA(b)))
 			return (0);
 	}
 	if (a->type == INI_LINE_TYPE_VALUE) {
-		if (a->val_size != b->val_size || (a->val - a->data) != (b->val - b->data))
+		if (a->val_size != b->val_size || (a->val - VF_INI_DATA(a)) != (b->val - VF_INI_DATA(b)))
 			return (0);
 	}
 	return (1);
@@ -496,7 +510,7 @@ vf_ini_post_parse(const ini_t *ini, size_t old_count, const uint8_t *buf, size_t
 	if (l == NULL || l->data_size != ln)
 		return (0);
 	for (j = 0; j < ln; j ++) {
-		if (l->data[j] != buf[st + j])
+		if (VF_INI_DATA(l)[j] != buf[st + j])
 			return (0);
 	}
 	return (vf_ini_line_canonical(l));
@@ -506,16 +520,15 @@ vf_ini_post_parse(const ini_t *ini, size_t old_count, const uint8_t *buf, size_t
 /*
  * One line record from symbolic ingredients.  kind: 0..4 = line type, 5 = NULL entry.
  * The record is ONE heap object: header followed by the data area, as ini_line_alloc__int()
- * makes it.  Its capacity is the constant VF_INI_CAP (symbolic-size heap objects make every
- * field access a byte operation on an unbounded array: measured > 300 s for one lookup,
- * 35 s with a constant size); data_size and data_allocated_size are symbolic <= VF_INI_CAP
- * (data_allocated_size is any value: it is stale after a realloc that did not move the
- * record, see ini_val_set).  The data bytes are the unconstrained initial content of the
+ * makes it.  The object has the constant size VF_INI_RECSZ (symbolic-size heap objects
+ * make every field access a byte operation on an unbounded array: measured > 300 s for one
+ * lookup, 10 s with a constant size); its REQUESTED capacity data_size + pad (pad <= 16) is
+ * registered in vf_ini_req[]; data_allocated_size is any value up to that capacity (it is
+ * stale after a realloc that did not move the record, see ini_val_set).  The data bytes are the unconstrained initial content of the
  * heap object; they are recorded as input `<tag>_raw` for the native replay.
  */
 #define VF_INI_KIND_NULL	5
-#define VF_INI_RAW		(2 * VF_INI_FLD + 2)
-#define VF_INI_CAP		(VF_INI_RAW + INI_LINE_ALLOC_PADDING)
+#define VF_INI_RAW		VF_INI_FLDCAP
 struct vf_ini_raw { uint8_t b[VF_INI_RAW]; };
 
 #ifndef VF_REPLAY
@@ -523,12 +536,13 @@ void *malloc(__CPROVER_size_t);
 #endif
 
 static inline ini_line_p
-vf_ini_mk_line(uint8_t kind, size_t nsz, size_t vsz, size_t das, const uint8_t *raw) {
+vf_ini_mk_line(uint8_t kind, size_t nsz, size_t vsz, size_t pad, size_t das,
+    const uint8_t *raw) {
 	ini_line_p l;
 	size_t dsz;
 
 	VF_ASSUME(kind <= VF_INI_KIND_NULL);
-	VF_ASSUME(nsz <= VF_INI_FLD && vsz <= VF_INI_FLD && das <= VF_INI_CAP);
+	VF_ASSUME(nsz <= VF_INI_FLD && vsz <= VF_INI_FLD && pad <= INI_LINE_ALLOC_PADDING);
 	if (kind == VF_INI_KIND_NULL)
 		return (NULL);
 	switch (kind) {
@@ -537,8 +551,13 @@ vf_ini_mk_line(uint8_t kind, size_t nsz, size_t vsz, size_t das, const uint8_t *
 	case INI_LINE_TYPE_VALUE:	dsz = nsz + 1 + vsz; break;
 	default:			dsz = nsz; break;
 	}
-	l = (ini_line_p)malloc(sizeof(ini_line_t) + VF_INI_CAP);
+	l = (ini_line_p)malloc(VF_INI_RECSZ);
 	VF_ASSUME(l != NULL);
+	/* requested capacity: data_size + pad; data_allocated_size: anything up to it */
+	VF_ASSUME(das <= dsz + pad);
+#ifndef VF_REPLAY
+	VF_INI_REQ(l) = sizeof(ini_line_t) + dsz + pad;
+#endif
 	l->data = (uint8_t *)(l + 1);
 	l->data_size = dsz;
 	l->data_allocated_size = das;
@@ -573,9 +592,10 @@ vf_ini_mk_line(uint8_t kind, size_t nsz, size_t vsz, size_t das, const uint8_t *
 		VF_NONDET(uint8_t, tag##_kind);					\
 		VF_NONDET(uint8_t, tag##_nsz);					\
 		VF_NONDET(uint8_t, tag##_vsz);					\
+		VF_NONDET(uint8_t, tag##_pad);					\
 		VF_NONDET(uint8_t, tag##_das);					\
 		(dst) = vf_ini_mk_line(tag##_kind, tag##_nsz, tag##_vsz,	\
-		    tag##_das, NULL);						\
+		    tag##_pad, tag##_das, NULL);				\
 		if ((dst) != NULL)						\
 			__CPROVER_input(#tag "_raw",				\
 			    *(struct vf_ini_raw *)((dst)->data));		\
@@ -586,16 +606,22 @@ vf_ini_mk_line(uint8_t kind, size_t nsz, size_t vsz, size_t das, const uint8_t *
 		VF_NONDET(uint8_t, tag##_kind);					\
 		VF_NONDET(uint8_t, tag##_nsz);					\
 		VF_NONDET(uint8_t, tag##_vsz);					\
+		VF_NONDET(uint8_t, tag##_pad);					\
 		VF_NONDET(uint8_t, tag##_das);					\
 		VF_NONDET_BYTES(tag##_raw, VF_INI_RAW);				\
 		(dst) = vf_ini_mk_line(tag##_kind, tag##_nsz, tag##_vsz,	\
-		    tag##_das, tag##_raw.b);					\
+		    tag##_pad, tag##_das, tag##_raw.b);				\
 	} while (0)
 #endif
 
 /* store with `count` <= VF_INI_MAXL symbolic lines; the pointer table is a heap object of
  * VF_INI_MAXL + 1 entries of which `allocated` (count <= allocated) are claimed;
  * allocated == 0: no table yet (a fresh ini_create() store) */
+#ifndef VF_REPLAY
+#define VF_INI_REG(p, n)	(VF_INI_REQ(p) = (n))
+#else
+#define VF_INI_REG(p, n)	((void)0)
+#endif
 #define VF_INI_SYM_STORE(ini)							\
 	do {									\
 		VF_NONDET(uint8_t, ini_count);					\
@@ -612,6 +638,7 @@ vf_ini_mk_line(uint8_t kind, size_t nsz, size_t vsz, size_t das, const uint8_t *
 			(ini)->lines = (ini_line_p *)malloc((VF_INI_MAXL + 1) *	\
 			    sizeof(ini_line_p));				\
 			VF_ASSUME((ini)->lines != NULL);			\
+			VF_INI_REG((ini)->lines, (VF_INI_MAXL + 1) * sizeof(ini_line_p)); \
 		}								\
 		if (ini_count > 0) VF_INI_SYM_LINE((ini)->lines[0], l0);	\
 		if (ini_count > 1) VF_INI_SYM_LINE((ini)->lines[1], l1);	\
